@@ -45,6 +45,7 @@ def budget_of(task):
 def run_algo_task(task, make_oracles, nontrivial=None, learner_classes=None, on_crash=None, labels=None,
                   construct_hook=None, stats=None, digest=True):
     st = stats or Stats()
+    world._KNOWN_CACHE["prop"] = task.get("_prop")
     bk, k = budget_of(task)
     dl = None
     if task.get("time_cap"):
